@@ -411,7 +411,7 @@ theorem runCommand_sort_ok (fuel : Nat) (inp : Input) (c : Bst.Command) (s s' : 
 
 theorem iterate_items (fuel : Nat) (f : VarObj) (Inv : St → Prop) (item : Str → List Str)
     (hf : ∀ s k s', Inv s → execObj fuel f { s with cur := some k } = .ok s' →
-      Inv s' ∧ s'.lines = s.lines ++ item k)
+      Inv { s' with cur := none } ∧ s'.lines = s.lines ++ item k)
     (keys : List Str) (s s' : St) (hs : Inv s) (h : iterate fuel f keys s = .ok s') :
     Inv s' ∧ s'.lines = s.lines ++ keys.flatMap item := by
   induction keys generalizing s with
@@ -426,8 +426,8 @@ theorem iterate_items (fuel : Nat) (f : VarObj) (Inv : St → Prop) (item : Str 
         · cases h
         · rename_i s1 h1
           obtain ⟨hi, hl⟩ := hf s k s1 hs h1
-          obtain ⟨hi', hl'⟩ := ih s1 hi h
-          exact ⟨hi', by rw [hl', hl, List.flatMap_cons, List.append_assoc]⟩
+          obtain ⟨hi', hl'⟩ := ih { s1 with cur := none } hi h
+          exact ⟨hi', by rw [hl']; show s1.lines ++ _ = _; rw [hl, List.flatMap_cons, List.append_assoc]⟩
 
 theorem runProgram_append (fuel : Nat) (inp : Input) (p q : Bst.Program) (s : St) :
     runProgram fuel inp (p ++ q) s =
@@ -769,7 +769,7 @@ theorem iterate_cons_error (fuel : Nat) (f : VarObj) (k : Str) (ks : List Str) (
 theorem iterate_cons_ok (fuel : Nat) (f : VarObj) (k : Str) (ks : List Str) (s s1 : St) (db : BibData)
     (hdb : s.db = some db) (hc : db.entries.contains k = true)
     (h : execObj fuel f { s with cur := some k } = .ok s1) :
-    iterate fuel f (k :: ks) s = iterate fuel f ks s1 := by
+    iterate fuel f (k :: ks) s = iterate fuel f ks { s1 with cur := none } := by
   simp only [iterate, h]
   simp only [hdb, hc]
   rfl
@@ -796,7 +796,8 @@ theorem iterate_sim (hA : Agree K db₁ db₂) (fuel : Nat) (f : VarObj) (keys :
       exact rfl
     · rw [iterate_cons_ok fuel f k ks s s1 db₁ g.hdb c1 h1,
         iterate_cons_ok fuel f k ks (setDb db₂ pfx s) (setDb db₂ pfx s1) db₂ rfl c2 h2]
-      exact ih (fun k hk' => hk k (List.mem_cons_of_mem _ hk')) s1 g1
+      exact ih (fun k hk' => hk k (List.mem_cons_of_mem _ hk')) { s1 with cur := none }
+        ⟨g1.1, (fun _ hk' => by cases hk'), g1.3⟩
 
 theorem addVariable_sim (n : Str) (v : VarObj) (s : St) (g : Good K db₁ s) :
     SimR K db₁ db₂ pfx (addVariable s n v) (addVariable (setDb db₂ pfx s) n v) := by
